@@ -159,6 +159,8 @@ func runC14(c *eng.Ctx) {
 	ruleFollowerAppendGuards(c)
 	c.Rule("R01.18", "K4")
 	rulePooledBuffersDoNotEscape(c)
+	c.Rule("R14.13", "K6")
+	ruleEnvelopeMinimumLengthTestsAgree(c)
 
 	// ---- R14.1 bounds on bytes that arrive from NATS
 	c.Rule("R14.1", "K9")
